@@ -183,7 +183,7 @@ def w_objects(arg):
                                      # RFC 4880 6.2: header values are UTF-8 text
                                      'Gr\u00fc\u00dfe', 'Zo\u00eb \u65e5\u672c', 'na\u00efve: caf\u00e9']))
     hdr = st.lists(st.tuples(st.sampled_from(HEADER_KEYS), val), max_size=3, unique_by=lambda kv: kv[0])
-    strat = st.fixed_dictionaries({'i': st.integers(0, 10000), 'headers': hdr, 'form': st.sampled_from(['str', 'bytes', 'bytearray', 'crlf', 'surround', 'followed'])})
+    strat = st.fixed_dictionaries({'i': st.integers(0, 10000), 'headers': hdr, 'form': st.sampled_from(['str', 'bytes', 'bytearray', 'crlf', 'surround', 'followed', 'surround-bytes'])})
 
     def body(c):
         label, obj, cls = objects(c['i'])
@@ -214,6 +214,9 @@ def w_objects(arg):
             inp = text.replace('\n', '\r\n')
         elif c['form'] == 'surround':
             inp = ['preamble line\n\n', 'Gr\u00fc\u00dfe,\n\n'][c['i'] % 2] + text + '\ntrailer\n'
+        elif c['form'] == 'surround-bytes':
+            # the same as bytes, the text in front beginning with a non-ASCII character (UTF-8, Latin-1) or a byte order mark
+            inp = ['\u00c9mile wrote:\n\n'.encode('utf-8'), '\u00c9mile wrote:\n\n'.encode('latin-1'), b'\xef\xbb\xbf', '\u00fcber\n'.encode('utf-8')][c['i'] % 4] + text.encode('utf-8') + b'\ntrailer\n'
         elif c['form'] == 'followed':
             # another armored block of another kind behind it (a mail with the signer's key attached, a file of several blocks): the first block is
             # the object, framed by its own armor tail -- not by the last one of the input
